@@ -82,7 +82,7 @@ def run (op : String) (a : Json) : Option (Except String Json) :=
   | "gen.xsd_sites" => some do pure <| ok (jList jSite (sites (← dParticle (fld a "particle"))))
   | "gen.xsd_occurs" => some do pure <| optSites (occurs (sites (← dParticle (fld a "particle"))))
   | "gen.dtd_sites" => some do pure <| ok (jList jSite (dtdSites (← dContent (fld a "content"))))
-  | "gen.dtd_occurs" => some do pure <| optSites (occurs (dtdSites (← dContent (fld a "content"))))
+  | "gen.dtd_occurs" | "gen.dtd_fields" => some do pure <| optSites (occurs (dtdSites (← dContent (fld a "content"))))
   | _ => none
 
 end OpsGen
